@@ -503,7 +503,9 @@ def r10_2(ctx):
 
 
 def rules(ctx):
-    return [r10_1, r10_2]
+    from . import c06
+    # generated names must be fresh bindings: a generated `_x` that can be the user's `_x` makes a lowering depend on (and disturb) unrelated code
+    return [r10_1, r10_2, c06.r06_6]
 
 
 EXPLANATION = (
